@@ -98,20 +98,21 @@ CHECKS = {
             "Trusted: the Python twins/models and the encoder hook. Immutable-vs-mutable vector equality, NaN and mutable keys are left unspecified.",
             "DESIGN.md §3 C11"),
     "C07": ("exploration",
-            "small-scope exhaustive enumeration of inputs: all token sequences / byte strings up to a length through the full pipeline, every pure native built-in x every argument tuple of arity 0..2 over a value alphabet, and all histories of good/failing evaluations up to a depth, on the real engine in forked children",
+            "small-scope exhaustive enumeration of inputs: all token sequences / byte strings up to a length through the full pipeline, every pure native built-in x every argument tuple of arity 0..2 over a value alphabet (arity 3 and 4 over reduced alphabets), and all histories of good/failing evaluations up to a depth, on the real engine in forked children",
             "Every token sequence up to length 3 (thorough 4 over a reduced menu) and every short byte string is evaluated; every pure native built-in "
-            "(~390, effectful ones excluded by name) is called with all ~1800 argument tuples over one value per kind plus boundary magnitudes, with a "
+            "(~390, effectful ones excluded by name) is called with all ~1980 argument tuples of length 0..2 over one value per kind plus boundary magnitudes, every 3-tuple over 7 and every 4-tuple over 4 values, with a "
             "progress mark before each call so that a panic, abort, hang or allocation failure is attributed to a single call; every history of up to 3 (4) "
             "events from 12 good/failing event kinds is replayed with a probe program, stack-depth and earlier-definition checks after every step.",
             "Trusted: the deny-list of effectful built-ins, the 6 GB address-space cap (allocation failure = host crash), catch_unwind attribution with JIT off. "
-            "Arity >= 3 calls and longer texts are outside the bound.",
+            "Calls with five or more arguments and longer texts are outside the bound; narrowing of one built-in stops after 3 hangs, 40 failing calls or 25 s (listed in the evidence).",
             "DESIGN.md §3 C07"),
     "C01": ("exploration",
             "small-scope exhaustive enumeration of programs (all closed core terms up to a size, every small term in every compiler position context, skeleton families with enumerated holes, evaluation histories) run on the real engine and compared step by step with a reference CEK evaluator",
             "All closed core terms up to size 4 (thorough 5: 153k), every term up to size 2 (3) in 13 position contexts, ~2.7k skeleton programs (call-site x "
             "parameter shapes incl. variadic self tail calls, counters, shadowing of 26 specialised built-in names as parameter/local/global at right and wrong "
-            "arity, dead code, let depth x arguments under tail calls, begin/define interleavings, higher-order procedures, JIT operand grid, histories, and the "
-            "multi-step programs again as one compilation unit) are evaluated and compared with vp/ref_scheme.py on status, value and output of every step.",
+            "arity, dead code, let depth x arguments under tail calls, begin/define interleavings, higher-order procedures, JIT operand grid, histories, an "
+            "operand-count family (calls with 0..12 arguments in every call shape, arithmetic / comparison with 0..6 operands), the multi-step programs again as "
+            "one compilation unit, and ~2.1k of them again with their definitions placed in a required file module) are evaluated and compared with vp/ref_scheme.py on status, value and output of every step.",
             "Trusted: the reference evaluator (written from R7RS + Steel's documented deviations) and the encoder hook. Programs whose outcome depends on operand "
             "evaluation order, on an unspecified value, or on a never-evaluated free identifier are skipped (counted).",
             "DESIGN.md §3 C01"),
@@ -174,12 +175,12 @@ CHECKS = {
             "Trusted: vp/ref_scheme.py. Continuations are delimited per top-level form, so each program is one form; reset/shift is not in the reference yet.",
             "DESIGN.md §3 C08"),
     "C20": ("exploration",
-            "complete enumeration of finite host-boundary grids on the Rust side (conversion types x boundary values, function signatures x argument tuples x call shapes, stash locations x late uses of a lent reference) against Rust's own TryFrom semantics",
-            "33k checks: every integer width with its own extremes and the neighbours just outside in both directions (script->host through a registered function "
+            "complete enumeration of finite host-boundary grids on the Rust side (conversion types x boundary values, function signatures x argument tuples x call shapes, arity 0..16 argument routing, container element tuples, stash locations x late uses of a lent reference, borrow histories of derived references) against Rust's own TryFrom semantics",
+            "~100k checks: every integer width with its own extremes and the neighbours just outside in both directions (script->host through a registered function "
             "whose body counts its entries, host->script->host); floats incl. signed zero/NaN/infinities/subnormals; the other convertible kinds; 4 signatures x every "
-            "argument tuple of length 0..arity+1 over 9 values, directly and through apply (accepted and entered exactly when arity and kinds match); a reference lent "
+            "argument tuple of length 0..arity+1 over 9 values, directly and through apply (accepted and entered exactly when arity and kinds match); 47 host functions of arity 0..16 (plain, &self, &mut self) with the parameter vector seen by the host compared position by position; Vec<u8|i64|String> parameters x every element tuple of length 0..3 over 6 values x {list, immutable vector, mutable vector} and Engine::extract; every history of <= 5 operations (derive a reference from the lent object through two registered shapes into two slots, release, mutate the parent) against a borrow model (19.6k histories); a reference lent "
             "by run_with_reference stashed in 12 kinds of places must fail on every later use, leave the host object untouched and allow a second lend.",
-            "Trusted: the expectations (Rust's TryFrom). Registered Custom structs by value, tuples beyond pairs and functions of arity > 3 are not in the grid yet.",
+            "Trusted: the expectations (Rust's TryFrom). Registered Custom structs by value and tuples beyond pairs are not in the grid yet; derived references through &SELF receivers are not registered.",
             "DESIGN.md §3 C20"),
     "C18": ("exploration",
             "complete enumeration of a finite shape x operation x size-ladder grid, every cell executed in a forked child of the real engine with the default native stack",
